@@ -468,7 +468,7 @@ def parse_pagexml_file(pagexml_file: str, pagexml_data: Union[str, None] = None,
     :return: a pdm.PageXMLScan object
     :rtype: PageXMLScan
     """
-    if not pagexml_data:
+    if pagexml_data is None:
         pagexml_data = read_pagexml_file(pagexml_file, encoding=encoding)
     scan_json = xmltodict.parse(pagexml_data)
     try:
